@@ -250,6 +250,29 @@ def apply(state: dict, n: dict, *, join_replaces: bool = False) -> dict:
     return st
 
 
+def forget_user(state: dict, name: str) -> dict:
+    """The library only keeps a user as long as something references it.  When
+    a user is no longer referenced anywhere, what was announced about its status
+    and statistics may be forgotten ("unknown" makes no false claim); what was
+    announced about its privileges may not: a user referenced again must not be
+    shown as privileged after the server said it is not, or the reverse."""
+    st = copy.deepcopy(state)
+    old = st['users'].get(name)
+    fresh = new_user()
+    if old is not None:
+        fresh['privileged'] = old['privileged']
+    st['users'][name] = fresh
+    return st
+
+
+def privileged_set(state: dict) -> set:
+    """Who is privileged according to the announcements so far."""
+    return {name for name, user in state['users'].items() if user['privileged']}
+
+
+PRIVILEGE_KINDS = frozenset({'PrivilegedUsers', 'AddPrivilegedUser', 'GetUserStatus'})
+
+
 def fold(me: str, notifications: list, users: Optional[dict] = None) -> dict:
     st = new_state(me, users)
     for n in notifications:
